@@ -55,6 +55,13 @@ Wide == /\ IsEvent("wide")
                  /\ Ev.visited = [i \in 1..hosts |-> i]              \* first+1 .. last-1, increasing, once
         /\ silent' = FALSE
 
+(* real-width ranges from an address and an arbitrary mask: "the derived range starts at address AND mask and ends at address
+   OR NOT mask, contains exactly the addresses between its ends" *)
+WideMask == /\ IsEvent("widemask")
+            /\ ~Ev.threw
+            /\ \A i \in 1..Len(Ev.probes) : Ev.contains[i] <=> B!ContainsB(Ev.a, Ev.m, Ev.probes[i])
+            /\ silent' = FALSE
+
 (* "equality and ordering agree with the numeric order of the address bytes, hashing is consistent with equality" *)
 Cmp == /\ IsEvent("cmp")
        /\ Ev.ra = Ev.a /\ Ev.rb = Ev.b                               \* the objects hold the bytes they were built from
@@ -81,7 +88,7 @@ Parse == /\ IsEvent("parse")
             /\ c = "reject" => ~Ev.ok
             /\ Ev.ok => Ev.back = Ev.val                             \* whatever was accepted: its textual form parses back to it
             /\ silent' = (c = "unspec")
-Next == RangeEv \/ PostInc \/ Wide \/ Cmp \/ RoundTrip \/ Parse
+Next == RangeEv \/ PostInc \/ Wide \/ WideMask \/ Cmp \/ RoundTrip \/ Parse
 Spec == Init /\ [][Next]_vars
 MarkSilent == NoteSkipped(silent)
 =============================================================================
